@@ -53,10 +53,12 @@ HANDLED_UNDER = {'alias': ('Import', 'ImportFrom')}
 # symbolic path extraction for the stack_* helpers
 
 class PathEnv:
-    def __init__(self, fn, root='ast'):
+    def __init__(self, fn, root='ast', truth=None):
         self.fn, self.root = fn, root
+        self.truth = truth or (lambda e: None)          # decides a test when the caller has specialised the function (else None)
         self.env: dict[str, set] = {}
         self.tuple_env: dict[str, list] = {}
+        self.listlit: dict[str, set] = {}
 
     def paths(self, e) -> set:
         if isinstance(e, ast.Name):
@@ -83,6 +85,9 @@ class PathEnv:
         if isinstance(e, ast.BinOp) and isinstance(e.op, ast.Add):
             return self.paths(e.left) | self.paths(e.right)
         if isinstance(e, ast.IfExp):
+            tv = self.truth(e.test)
+            if tv is not None:
+                return self.paths(e.body if tv else e.orelse)
             return self.paths(e.body) | self.paths(e.orelse)
         if isinstance(e, ast.BoolOp):
             out = set()
@@ -113,7 +118,16 @@ class PathEnv:
             it += 1
             changed = False
             for n in walk_no_nested(self.fn):
-                if isinstance(n, ast.Assign) and len(n.targets) == 1 and isinstance(n.targets[0], ast.Name):
+                if isinstance(n, ast.Assign) and len(n.targets) == 1 and isinstance(n.targets[0], ast.Name) and isinstance(n.value, ast.List):
+                    # a local list display: `elts = [ast.key, ast.value]` — its *elements* are the paths
+                    ps = set()
+                    for x in n.value.elts:
+                        ps |= self.paths(x)
+                    old = self.listlit.get(n.targets[0].id, set())
+                    if not ps <= old:
+                        self.listlit[n.targets[0].id] = old | ps
+                        changed = True
+                elif isinstance(n, ast.Assign) and len(n.targets) == 1 and isinstance(n.targets[0], ast.Name):
                     changed |= self.bind(n.targets[0].id, self.paths(n.value))
                 elif isinstance(n, ast.NamedExpr) and isinstance(n.target, ast.Name):
                     changed |= self.bind(n.target.id, self.paths(n.value))
@@ -161,6 +175,9 @@ class PathEnv:
         if isinstance(e, ast.BinOp) and isinstance(e.op, ast.Add):
             return self._assigned(e.left) | self._assigned(e.right)
         if isinstance(e, ast.IfExp):
+            tv = self.truth(e.test)
+            if tv is not None:
+                return self._assigned(e.body if tv else e.orelse)
             return self._assigned(e.body) | self._assigned(e.orelse)
         if isinstance(e, ast.List):
             out = set()
@@ -169,6 +186,11 @@ class PathEnv:
             return out
         if isinstance(e, ast.NamedExpr):
             return self._assigned(e.value)
+        inner = e
+        while isinstance(inner, ast.Subscript) and isinstance(inner.slice, ast.Slice):
+            inner = inner.value
+        if isinstance(inner, ast.Name) and inner.id in self.listlit:
+            return set(self.listlit[inner.id])
         return {p + '[]' for p in self.paths(e)}
 
 
@@ -250,21 +272,136 @@ def run(ctx):
               'iter pushed only `if (a := ast.iter) is not self.scope_first_iter`',
               'the first iterable of the root comprehension belongs to the enclosing scope and must be excluded in both arms',
               fi.lineno)
-    # create(): initial stacks
+    # create(): initial stacks, per root class.  The function (or, with a dispatch table {class: builder}, the builder of the class) is
+    # specialised for each scope-root class by deciding its tests on the class of the root; what is pushed on the feasible statements has to
+    # be the in-scope parts of that class (both directions together).
     cr = ctx.repo.funcs('fst_traverse', '_ScopeContext.create')[0]
-    pe = PathEnv(cr.node, 'ast')
-    pe.solve()
-    ifs = find_back_ifs(cr.node)
-    want_create = [{'type_params[]', 'args', 'body[]', 'body'}, {'type_params[]', 'body[]'},
-                   {'elt', 'key', 'value', 'generators[]'}]
-    ctx.check('R16.1b', len(ifs) == 3, cr.module, cr.qualname, f'{len(ifs)} direction arms', 'create() must have funcdef/lambda, class and comprehension arms', cr.lineno)
-    for n, w in zip(ifs, want_create):
-        for arm_name, arm in (('back', n.body), ('forward', n.orelse)):
-            got = pe.pushes(arm)
-            ctx.check('R16.1b', got == w, cr.module, cr.qualname, f'create {arm_name} arm pushes {sorted(got)}',
-                      f'initial scope stack {sorted(got)} differs from the in-scope parts {sorted(w)}', n.lineno)
-    sfi = [n for n in walk_no_nested(cr.node) if isinstance(n, ast.Assign) and norm(n.targets[0]) == 'scope_first_iter' and 'generators[0].iter' in norm(n.value)]
-    ctx.check('R16.1b', len(sfi) == 1, cr.module, cr.qualname, 'scope_first_iter = generators[0].iter ...', 'first iterable of the root comprehension is not recorded', cr.lineno)
+    COMP_ALL = {'elt', 'key', 'value', 'generators[]'}
+    WANT = {'FunctionDef': {'type_params[]', 'args', 'body[]'}, 'AsyncFunctionDef': {'type_params[]', 'args', 'body[]'},
+            'Lambda': {'args', 'body'}, 'ClassDef': {'type_params[]', 'body[]'},
+            'ListComp': {'elt', 'generators[]'}, 'SetComp': {'elt', 'generators[]'}, 'GeneratorExp': {'elt', 'generators[]'},
+            'DictComp': {'key', 'value', 'generators[]'}}
+    from ..cfg import CFG, subnodes
+
+    def specialised_pushes(fi_, root, K):
+        fn_ = fi_.node
+        cls_vars = set()
+        for x in ast.walk(fn_):
+            tg = val = None
+            if isinstance(x, ast.Assign) and len(x.targets) == 1:
+                tg, val = x.targets[0], x.value
+            elif isinstance(x, ast.NamedExpr):
+                tg, val = x.target, x.value
+            if isinstance(tg, ast.Name) and isinstance(val, ast.Attribute) and val.attr == '__class__' and norm(val.value) == root:
+                cls_vars.add(tg.id)
+        boolenv = {}
+
+        def is_cls(e):
+            return (isinstance(e, ast.Name) and e.id in cls_vars) or (isinstance(e, ast.Attribute) and e.attr == '__class__' and norm(e.value) == root)
+
+        def truth(e):
+            if isinstance(e, ast.NamedExpr):
+                v = truth(e.value)
+                if isinstance(e.target, ast.Name) and v is not None:
+                    boolenv.setdefault(e.target.id, set()).add(v)
+                return v
+            if isinstance(e, ast.UnaryOp) and isinstance(e.op, ast.Not):
+                v = truth(e.operand)
+                return None if v is None else not v
+            if isinstance(e, ast.BoolOp):
+                vs = [truth(v) for v in e.values]
+                if isinstance(e.op, ast.And):
+                    return False if False in vs else (True if all(v is True for v in vs) else None)
+                return True if True in vs else (False if all(v is False for v in vs) else None)
+            if isinstance(e, ast.Compare) and len(e.ops) == 1 and is_cls(e.left):
+                S = T.classes_mentioned(ctx, fi_.module, e.comparators[0])
+                if not S:
+                    return None
+                op = e.ops[0]
+                if isinstance(op, (ast.Is, ast.Eq)):
+                    return K in S
+                if isinstance(op, (ast.IsNot, ast.NotEq)):
+                    return K not in S
+                if isinstance(op, ast.In):
+                    return K in S
+                if isinstance(op, ast.NotIn):
+                    return K not in S
+            if isinstance(e, ast.Name) and len(boolenv.get(e.id, ())) == 1:
+                return next(iter(boolenv[e.id]))
+            return None
+        # flags bound from a class test: `is_def = ast.__class__ in ASTS_LEAF_FUNCDEF`, `(is_elt := ...)`.  Only bindings on statements that
+        # are feasible for this class count (`is_def = True` in the ClassDef arm says nothing about a Lambda): iterate to a fixed point.
+        cfg_ = CFG(fn_)
+
+        def edge(n_, lab, s_):
+            if lab == 'exc':
+                return False
+            if n_.kind == 'test' and lab in ('true', 'false') and isinstance(n_.ast, ast.expr):
+                v = truth(n_.ast)
+                if v is not None:
+                    return lab == ('true' if v else 'false')
+            return True
+        reach = set(range(len(cfg_.nodes)))
+        for _ in range(4):
+            boolenv.clear()
+            for i in sorted(reach):
+                for x in subnodes(cfg_, cfg_.nodes[i]):
+                    if isinstance(x, ast.Assign) and len(x.targets) == 1 and isinstance(x.targets[0], ast.Name):
+                        if isinstance(x.value, ast.Constant) and isinstance(x.value.value, bool):
+                            boolenv.setdefault(x.targets[0].id, set()).add(x.value.value)
+                        else:
+                            v = truth(x.value)
+                            if v is not None:
+                                boolenv.setdefault(x.targets[0].id, set()).add(v)
+                    elif isinstance(x, ast.NamedExpr):
+                        truth(x)
+            new_reach = cfg_.reachable(cfg_.entry, edge) | {cfg_.entry}
+            if new_reach == reach:
+                break
+            reach = new_reach
+        pe_ = PathEnv(fn_, root, truth)
+        pe_.solve()
+        got = set()
+        for i in reach:
+            nd = cfg_.nodes[i]
+            if nd.kind == 'stmt' and isinstance(nd.ast, ast.stmt) and not isinstance(nd.ast, (ast.If, ast.For, ast.While, ast.Try, ast.With)):
+                got |= pe_.pushes([nd.ast])
+        return got
+    # dispatch table in create(): {class: builder(root, back)}
+    table = None
+    for x in ast.walk(cr.node):
+        if isinstance(x, ast.Call) and isinstance(x.func, ast.Attribute) and x.func.attr == 'get' and isinstance(x.func.value, ast.Name) and x.args and \
+                isinstance(x.args[0], ast.Attribute) and x.args[0].attr == '__class__':
+            try:
+                tv = ctx.ev.get(cr.module, x.func.value.id)
+            except AnalysisError:
+                tv = None
+            if isinstance(tv, dict) and tv and all(isinstance(k, ClassTok) for k in tv):
+                table = {k.name: v for k, v in tv.items()}
+    root_create = [a.arg for a in cr.node.args.posonlyargs + cr.node.args.args][-1]
+    n_roots = 0
+    for K, want in WANT.items():
+        if table is not None:
+            row = table.get(K)
+            g = ctx.repo.find_funcs(row.module, row.qualname) if isinstance(row, FuncTok) else []
+            if not g:
+                ctx.bad('R16.1b', cr.module, cr.qualname, f'create: {K}', f'{K} is a scope root but the dispatch table of create() has no builder for it', cr.lineno)
+                continue
+            gps = [a.arg for a in g[0].node.args.posonlyargs + g[0].node.args.args]
+            got = specialised_pushes(g[0], gps[0], K)
+        else:
+            got = specialised_pushes(cr, root_create, K)
+        n_roots += 1
+        upper = (COMP_ALL if K.endswith('Comp') or K == 'GeneratorExp' else want | ({'type_params[]'} if K == 'Lambda' else set()))
+        ctx.check('R16.1b', want <= got <= upper, cr.module, cr.qualname, f'create {K}: pushes {sorted(got)}',
+                  f'initial scope stack for a {K} root {sorted(got)} differs from the in-scope parts {sorted(want)}', cr.lineno)
+    # the first iterable of a root comprehension is recorded (`<generators>[0].iter`), in create() or the builder it dispatches to
+    from ..struct import called_helpers
+    units = called_helpers(ctx.repo, cr, 1) + ([g_ for v in (table or {}).values() if isinstance(v, FuncTok) for g_ in ctx.repo.find_funcs(v.module, v.qualname)])
+    sfi = [n for u_ in units for n in walk_no_nested(u_.node) if isinstance(n, ast.Assign) and
+           any(isinstance(y, ast.Attribute) and y.attr == 'iter' and isinstance(y.value, ast.Subscript) and isinstance(y.value.slice, ast.Constant) and
+               y.value.slice.value == 0 and 'generators' in norm(y.value.value) for y in ast.walk(n.value))]
+    ctx.check('R16.1b', len(sfi) >= 1, cr.module, cr.qualname, 'scope_first_iter = generators[0].iter ...', 'first iterable of the root comprehension is not recorded', cr.lineno)
 
     # ---- R16.1c walk_Comp: first iterable and walrus targets go to the enclosing scope ------------------------------------
     ctx.rule('R16.1c', 'walk_Comp yields exactly the first iterable (`a is first_iter`, first_iter = ast.generators[0].iter) and '
@@ -335,6 +472,20 @@ def run(ctx):
     # ---- R16.1e a lambda inside the comprehension is its own scope -------------------------------------------------------------------
     ctx.rule('R16.1e', 'the walrus collection of walk_Comp does not descend into the body of a nested Lambda (own scope); it re-enters only through '
                        'the parts stack_Lambda assigns to the enclosing scope', 1)
+    from ..struct import called_helpers
+
+    def pushes_lambda_defaults_only(call):
+        """The call re-enters the lambda through the parts that belong to the enclosing scope only: stack_Lambda, or a worker that reads the
+        default values (`defaults`, `kw_defaults`) of an `arguments` node and never a `body`."""
+        nm = call_name(call)
+        if not nm:
+            return False
+        cands = ctx.repo.mod('fst_traverse').func('_ScopeContext.' + nm) if isinstance(call.func, ast.Attribute) else ctx.repo.find_funcs('fst_traverse', nm)
+        for g in cands:
+            attrs = {y.attr for h in called_helpers(ctx.repo, g, 1) for y in ast.walk(h.node) if isinstance(y, ast.Attribute)}
+            if {'defaults', 'kw_defaults'} <= attrs and 'body' not in attrs:
+                return True
+        return False
     lam_arm = False
     for n in walk_no_nested(wc.node):
         if isinstance(n, ast.If):
@@ -345,7 +496,7 @@ def run(ctx):
                 if any(isinstance(x, ast.Name) and x.id == 'Lambda' for x in ast.walk(arm.test)) and \
                         any(isinstance(x, ast.Call) and call_name(x) == 'send' and x.args and isinstance(x.args[0], ast.Constant) and x.args[0].value is False
                             and loops and norm(x.func.value) == norm(loops[0].iter) for b in arm.body for x in ast.walk(b)) and \
-                        any(isinstance(x, ast.Call) and call_name(x) == 'stack_Lambda' for b in arm.body for x in ast.walk(b)):
+                        any(isinstance(x, ast.Call) and pushes_lambda_defaults_only(x) for b in arm.body for x in ast.walk(b)):
                     # the arm must be one of the loop's top-level decisions (not inside the first-iterable arm, which handles a lambda *as* first iterable)
                     if loops and arm in [y for st in loops[0].body if isinstance(st, ast.If) for y in _if_chain(st)]:
                         lam_arm = True
@@ -449,10 +600,33 @@ def symbol_branches(ctx, ss) -> dict[str, set]:
                 elif isinstance(x.ops[0], ast.In) and isinstance(v, (set, frozenset, tuple, list)):
                     cs |= {c.name for c in v if isinstance(c, ClassTok)}
         return cs
+    def table_arm(test):
+        """`name_attr := TABLE.get(<class var>)` with TABLE = {class: attribute name}: the arm of every key, reading that attribute through
+        `getattr(<node>, name_attr)`.  -> {class name: attribute} or None"""
+        for x in ast.walk(test):
+            if isinstance(x, ast.Call) and isinstance(x.func, ast.Attribute) and x.func.attr == 'get' and isinstance(x.func.value, ast.Name) and \
+                    x.args and isinstance(x.args[0], ast.Name) and x.args[0].id in cls_vars:
+                try:
+                    tv = ctx.ev.get('fst', x.func.value.id)
+                except AnalysisError:
+                    continue
+                if isinstance(tv, dict) and tv and all(isinstance(k, ClassTok) and isinstance(v, str) for k, v in tv.items()):
+                    return {k.name: v for k, v in tv.items()}
+        return None
+
+    def on_cls(test, _plain=on_cls):
+        return _plain(test) or table_arm(test) is not None
     cur = chain
     while True:
         cs = classes_of(cur.test)
         r = reads(cur.body)
+        tab = table_arm(cur.test)
+        if tab:
+            uses_getattr = any(isinstance(x, ast.Call) and call_name(x) == 'getattr' and len(x.args) >= 2 and isinstance(x.args[0], ast.Name) and
+                               x.args[0].id in derived for b_ in cur.body for x in ast.walk(b_))
+            for c, attr in tab.items():
+                out.setdefault(c, set()).update(r | ({attr} if uses_getattr else set()))
+            cs = cs | set(tab)
         for c in cs:
             out.setdefault(c, set()).update(r)
         handled |= cs
